@@ -172,7 +172,7 @@ Theorem C11_pins_generator :
 Proof. exact pins_generator. Qed.
 Print Assumptions C11_pins_generator.
 Theorem C11_pins_naming_options :
-  naming_build_consts = ["Naming"; "."; ", "; "^((?P<namespace>[a-z0-9_.]+)\.)?(?P<name>[a-z0-9_]+)";
+  naming_build_consts = ["Naming"; "."; "."; ", "; "^((?P<namespace>[a-z0-9_.]+)\.)?(?P<name>[a-z0-9_]+)";
                          "\.(?P<version>v[0-9]+(p[0-9]+)?((alpha|beta)[0-9]*)?)"; "namespace"; "namespace"; ""; "name"; "namespace";
                          "."; "name"; "version"; ""; "All protos must have the same proto package up to and including the version.";
                          " "; "_"; " "; " "; "."; "."]
@@ -183,6 +183,8 @@ Theorem C11_pins_naming_options :
                              "Unrecognized option: `python-gapic-"; "`."]
   /\ gapic_prefix = "python-gapic-"
   /\ invalid_module_extra = ["metadata"; "request"; "retry"; "timeout"; "transport"]
+  /\ package_exprs = ["'.'.join(os.path.commonprefix([p.package.split('.') for p in req.proto_file if p.name in req.file_to_generate]))";
+                      "'.'.join(os.path.commonprefix([p.split('.') for p in sorted(proto_packages)]))"]
   /\ sanitize_consts = ["."; "-"; "."; "_"; "-"; "_"; "_"]
   /\ sanitize_tests = ["'.' in name or '-' in name";
                        "name in invalid_module_names or to_snake_case(name) in invalid_module_names or full_path in visited_names";
